@@ -3,7 +3,7 @@
    (full object tree: class skeleton WITH the stored scalars/vectors, domain, range, is_linear)
    or the error class it raised, and values at some points (out-of-place and in-place). *)
 From Coq Require Import ZArith QArith List Bool.
-From Verif Require Import Base.Num Base.Vec Base.Check C04.Model C04.ModelIP C04.ModelMem C04.Cplx Gen.OpTables C04.Tables.
+From Verif Require Import Base.Num Base.Vec Base.Check C04.Model C04.ModelIP C04.ModelMem C04.Cplx Gen.OpTables C04.Tables C04.Dispatch Gen.OpDispatch C04.DispatchModel.
 Import ListNotations.
 
 Section Corr.
@@ -70,6 +70,12 @@ Definition mem_ok (kon : nat -> lcontract) (o : oexpr T) (r : sp) (p : point) : 
 
 Definition check (k : case) : bool :=
   let s := c_expr k in let vt := c_vt k in
+  (* the interpretation of the regenerated overload trees builds the same object *)
+  match build_tab vt s, c_build k with
+  | Ok o', BOk sk _ _ _ _ => skel_ok o' sk
+  | Err TypeErr, BTypeErr | Err ZeroDivErr, BZeroDiv => true
+  | _, _ => false
+  end &&
   match build vt s, c_build k with
   | Ok o, BOk sk d r lin fn =>
       skel_ok o sk && sp_eqb (odom o) d && sp_eqb (oran o) r
